@@ -1,4 +1,4 @@
-import Gp.Lemmas.ReasmCover
+import Gp.Lemmas.ReasmNoLoss
 /-
   C09 — reassembly: TCP bytes delivered in order, exactly once, gaps announced.
 
@@ -141,7 +141,7 @@ theorem reasm_complete_prefix (S : List UInt8) (i : Int) (hi : 0 ≤ i) (hwin : 
     with no page limit configured and no flush in between (`HOp.Plain`): once a SYN and every byte of `S` have
     been fed, the new bytes handed to the stream, concatenated in hand-over order, are exactly `S`, and no gap was
     announced.  Nothing stays queued for ever and nothing is dropped by the six overlap cases of `checkOverlap`.
-    (An RST is admitted only at the end of the stream and not on a SYN: an RST in the middle legitimately ends
+    (An RST is allowed only at the end of the stream and not on a SYN: an RST in the middle legitimately ends
     the direction before `S` is complete — see the example below.) -/
 theorem reasm_complete (S : List UInt8) (i : Int) (hi : 0 ≤ i) (hwin : S.length + 2 < 1073741824)
     (ops : List HOp) (hplain : ∀ op ∈ ops, op.Plain S i) (hsyn : ∃ op ∈ ops, op.isSyn = true)
@@ -159,20 +159,61 @@ theorem reasm_complete (S : List UInt8) (i : Int) (hi : 0 ≤ i) (hwin : S.lengt
   rw [hlen] at hpre
   rw [hpre, List.take_length]
 
-/-- What is still missing for the strongest reading of "nothing is passed over silently": the same conservation
-    law for histories WITH page limits and interleaved flushes — every accepted byte is, at any time, in front of
-    nextSeq (handed over, or announced as part of a skip: `reasm_sound`) or still queued; stated in offset space.
-    Not proved: the coverage invariant (`Gp.Reasm.CInv.cov`, proved through checkOverlap, handleBytes and
-    sendToConnection for limit-free Assemble steps) has not been carried through the page-limit release of
-    handleBytes and through skipFlush / flushClose. -/
-def reasm_no_loss_full : Prop :=
-  ∀ (S : List UInt8) (i : Int), 0 ≤ i →
-  ∀ (ops : List HOp), (∀ op ∈ ops, op.OK S i) →
-    (∀ op ∈ ops, ∀ p acc keep cfg used, op = HOp.seg p acc keep cfg used → acc = 1 ∧
-      (p.rst = true → p.syn = false ∧ p.dataSeq + p.bytes.length = i + 1 + S.length)) →
-  ∀ (h : Half) (sgs : List SG), hrun Arith.ideal {} ops = .ok (h, sgs) → h.closed = false →
-  ∀ x : Int, i + 1 ≤ x → (∃ op ∈ ops, op.carries x) →
-    (h.nextSeq ≠ -1 ∧ x < h.nextSeq) ∨ ∃ p ∈ h.queue, p.seq ≤ x ∧ x < p.seq + p.bytes.length
+/-- **No byte is passed over silently** — with page limits and flushes.  For EVERY consistent history (segments in
+    any order with any duplication / overlap, any page limits, interleaved skipFlush / FlushWithOptions / FlushAll
+    steps, any KeepFrom answers) whose segments the stream accepts and in which an RST, if any, is at the end of the
+    stream (`HOp.Fed`): as long as the direction is open, the half connection of the real-arithmetic run is the
+    wrap image (sequence numbers reduced modulo 2^32) of an offset-space half connection `hI` in which every
+    payload byte fed so far is either in front of nextSeq — handed over, or announced as part of a skip
+    (`reasm_sound`) — or still inside a queued page.  No overlap case, limit release or flush drops a byte. -/
+theorem reasm_no_loss (S : List UInt8) (i : Int) (hi : 0 ≤ i) (hwin : S.length + 2 < 1073741824)
+    (ops : List HOp) (hfed : ∀ op ∈ ops, op.Fed S i)
+    (h : Half) (sgs : List SG) (hrun' : hrun Arith.real {} (ops.map HOp.wrap) = .ok (h, sgs))
+    (hopen : h.closed = false) :
+    ∃ hI : Half, h = hI.wrap ∧ ∀ x : Int, i + 1 ≤ x → (∃ op ∈ ops, op.carries x) →
+      (hI.nextSeq ≠ -1 ∧ x < hI.nextSeq) ∨ ∃ p ∈ hI.queue, p.seq ≤ x ∧ x < p.seq + p.bytes.length := by
+  have hok : ∀ op ∈ ops, op.OK S i := by
+    intro op hop
+    have := hfed op hop
+    cases op with
+    | seg p acc keep cfg used => exact ⟨this.1, by have := this.2.1; omega⟩
+    | skipFlush _ _ => trivial
+    | flushClose _ _ _ _ _ => trivial
+    | flushAll _ _ => trivial
+  have hA := hrun_wrap S i hi hwin ops {} (Or.inr (inv_init S (i + 1) 0)) hok
+  obtain ⟨⟨hI, sgsI⟩, hr, _, _⟩ := hrun_spec S i hi ops {} (Or.inr (inv_init S (i + 1) 0)) hok
+  rw [half_wrap_init, hr, hrun'] at hA
+  obtain ⟨rfl, rfl⟩ := Prod.mk.inj (Res.ok.inj hA)
+  have hopenI : hI.closed = false := by simpa [Half.wrap] using hopen
+  have h0 : NInv S (i + 1) (fun _ => False) ({} : Half) :=
+    { inv := inv_init S (i + 1) 0, fin := fun p hp => by simp at hp, cov := fun _ _ hf => hf.elim }
+  have hn := hrun_noloss S i hi ops {} _ h0 rfl hfed hI _ hr hopenI
+  refine ⟨hI, rfl, fun x hx hc => ?_⟩
+  rcases hn.cov x hx (Or.inr hc) with h' | ⟨p, hp, h1, h2⟩
+  · exact Or.inl h'
+  · exact Or.inr ⟨p, hp, h1, h2⟩
+
+/-- non-vacuity of `reasm_no_loss`: SYN; bytes [4,6) arrive with limit 1 (queued and released at once, skip 4);
+    byte 7 arrives without limit (queued behind the gap at 6); an age flush that releases nothing: all hypotheses
+    hold, the direction is open, bytes 4,5 are in front of nextSeq and byte 7 is queued. -/
+def nlOps : List HOp :=
+  [ .seg { seq := 10, syn := true, fin := false, rst := false, bytes := [], ts := 1 } 1 .none { maxPer := 1 } 0,
+    .seg { seq := 15, syn := false, fin := false, rst := false, bytes := [5, 6], ts := 2 } 1 .none { maxPer := 1 } 0,
+    .seg { seq := 18, syn := false, fin := false, rst := false, bytes := [8], ts := 3 } 1 .none {} 0,
+    .flushClose 0 0 3 .none 1 ]
+
+example : ∀ op ∈ nlOps, op.Fed [1, 2, 3, 4, 5, 6, 7, 8] 10 := by
+  intro op hop
+  simp only [nlOps, List.mem_cons, List.mem_nil_iff, or_false] at hop
+  rcases hop with rfl | rfl | rfl | rfl
+  · exact ⟨⟨by decide, ⟨0, by decide, by decide, by decide⟩, by decide⟩, rfl, by decide⟩
+  · exact ⟨⟨by decide, ⟨4, by decide, by decide, by decide⟩, by decide⟩, rfl, by decide⟩
+  · exact ⟨⟨by decide, ⟨7, by decide, by decide, by decide⟩, by decide⟩, rfl, by decide⟩
+  · trivial
+
+example : (match hrun Arith.real {} (nlOps.map HOp.wrap) with
+    | .ok (h, sgs) => (h.closed, h.nextSeq, h.queue.length, sgs.map (fun (g : SG) => (g.skip, g.new)))
+    | _ => (true, 0, 0, [])) = (false, 17, 1, [(0, []), (4, [5, 6])]) := by decide
 
 /-- non-vacuity of `reasm_complete`: the stream of the examples below (crossing the 2^32 wrap), fed as
     [4,6) — SYN — [0,3) — [1,4) overlapping — [6,8)+FIN — [3,6) overlapping both neighbours: all hypotheses hold
